@@ -65,9 +65,9 @@ def answer (fn : String) (bytes : List UInt8) (a1 a2 : Option Nat) : String :=
     showLoop (fun r => s!"ret={r.sev} len={r.len} ") (readComment C05.readCommentIters fuel (IS.ofBytes bytes))
   | "toksep" => showLoop (fun _ => "") (readTokenSeparator C05.readCommentIters fuel (IS.ofBytes bytes))
   | "findheader" =>
-    showLoop (fun r => s!"found={r.sev} ") (findHeaderSection C05.findHeaderGetlineN C05.findHeaderExit fuel (IS.ofBytes bytes))
+    showLoop (fun r => s!"found={r.sev} ") (findHeaderSectionWith C05.readCommentIters C05.findHeaderGetlineN C05.findHeaderExit fuel (IS.ofBytes bytes))
   | "recover" => showLoop (fun r => s!"len={r.len} ") (recoveryScan fuel (IS.ofBytes bytes) (UInt8.ofNat n))
-  | "exportlist" => showLoop (fun _ => "") (exportList C05.exportLoopChecksStreamCreate fuel (IS.ofBytes bytes))
+  | "exportlist" => showLoop (fun _ => "") (exportLoop C05.exportLoopChecksStreamCreate C05.readCommentIters fuel (IS.ofBytes bytes) chComma 0)
   | _ => "bad-op"
 
 def handle (line : String) : String :=
